@@ -23,6 +23,17 @@ CLAIMS = {
           "from a reference run in which main units fail."),
     technique="TLA+ state machine + TLC; fault-injection trace validation", ref='6 C07'),
 }
+CLAIMS['C10'] = dict(
+    text=("spec/Cleavage.tla states the 35 ExPASy rules (+ trypsin exception) as window predicates and digestion/canonical "
+          "pool as set definitions. MC_Cleavage makes every string of a bounded length over each rule's residue-class "
+          "representatives (and over all 22 residues at length 3/4) a TLC state, checks window locality, partition "
+          "independence, tiling and miscleavage monotonicity there, and requires the implementation's sites and pattern "
+          "ranges for that string (recorded from iter_enzymatic_cleave_sites / _with_range) to equal the spec's. PoolTrace "
+          "requires the pools built by generateIndex, updateIndex and on the fly to equal CanonicalPool for random proteomes "
+          "x cleavage settings."),
+    note=("Rule predicates are my transcription of the ExPASy table; proteome sequences contain no internal X; mass "
+          "thresholds are offset by 5e-5 Da so ties cannot occur; exhaustive within the stated string lengths only."),
+    technique="TLA+ definitional spec evaluated exhaustively by TLC over bounded strings; implementation outputs validated against it", ref='6 C10')
 PENDING = "not claimed in this revision: check not built yet (work in progress, see DESIGN.md section 12)"
 NA = {}
 
